@@ -17,6 +17,7 @@ import (
 
 	"github.com/notaryproject/notation-core-go/signature"
 	"github.com/notaryproject/notation-go"
+	pluginfw "github.com/notaryproject/notation-plugin-framework-go/plugin"
 	"github.com/notaryproject/notation-go/verifbridge"
 	"github.com/notaryproject/notation-go/verifier"
 	"github.com/notaryproject/notation-go/verifier/trustpolicy"
@@ -100,6 +101,8 @@ func genSubject(rng *Rng, kind string) [][]attr {
 
 type apiChain struct {
 	env      []byte
+	penv     []byte            // the same signed content with the critical attribute naming verification plugin "p"
+	intended map[string]string // the attributes the leaf subject was generated from (last one wins), nil if none
 	format   string
 	subjects []string          // Subject.String() as reported for the envelope's chain, leaf first
 	maps     []map[string]string // bridge parse of each subject (nil = does not parse)
@@ -114,7 +117,8 @@ func newAPIChain(rng *Rng, k int) (*apiChain, error) {
 	n := 1 + rng.Intn(3)
 	now := time.Now()
 	nb, na := now.Add(-48*time.Hour), now.Add(48*time.Hour)
-	leafRaw := rawSubject(genSubject(rng, kind))
+	leafRDNs := genSubject(rng, kind)
+	leafRaw := rawSubject(leafRDNs)
 	caSubject := func(role string) []byte {
 		// CA subjects are well-formed DNs so that pinning them is meaningful
 		at := []attr{{"C", Pick(rng, []string{"US", "DE"})}, {"ST", Pick(rng, []string{"WA", "BY"})}, {"O", Pick(rng, []string{"Verif CA", "Notary"})}, {"CN", fmt.Sprintf("%s %d", role, k)}}
@@ -136,11 +140,26 @@ func newAPIChain(rng *Rng, k int) (*apiChain, error) {
 		chain[0] = Mint(CertSpec{RawSubject: leafRaw, NotBefore: nb, NotAfter: na, Leaf: true}, chain[1])
 	}
 	c := &apiChain{kind: kind, format: Pick(rng, []string{MtJWS, MtCOSE})}
+	for _, rdn := range leafRDNs {
+		for _, x := range rdn {
+			if _, known := map[string]bool{"C": true, "ST": true, "L": true, "STREET": true, "POSTALCODE": true, "O": true, "OU": true, "CN": true, "SERIALNUMBER": true}[x.T]; known {
+				if c.intended == nil {
+					c.intended = map[string]string{}
+				}
+				c.intended[x.T] = x.V
+			}
+		}
+	}
 	env, err := SignEnvelope(EnvSpec{Format: c.format, Chain: chain, Payload: PayloadFor(apiDesc), Scheme: signature.SigningSchemeX509, SigningTime: now.Add(-time.Hour)})
 	if err != nil {
 		return nil, fmt.Errorf("sign (%s, n=%d): %w", kind, n, err)
 	}
 	c.env = env
+	c.penv, err = SignEnvelope(EnvSpec{Format: c.format, Chain: chain, Payload: PayloadFor(apiDesc), Scheme: signature.SigningSchemeX509, SigningTime: now.Add(-time.Hour),
+		ExtAttrs: []signature.Attribute{{Key: "io.cncf.notary.verificationPlugin", Critical: true, Value: "p"}}})
+	if err != nil {
+		return nil, fmt.Errorf("sign with plugin attribute (%s, n=%d): %w", kind, n, err)
+	}
 	// ground truth: what notation-core-go / crypto/x509 report for this envelope
 	content, err := CoreVerify(c.format, env)
 	if err != nil {
@@ -198,6 +217,10 @@ var idKinds = []string{"exact", "exact", "subset", "subset", "superset", "near-m
 // genIdentities draws the trusted identities for one case on chain c.
 func genIdentities(rng *Rng, c *apiChain, kind string) []string {
 	base := c.maps[0]
+	if base == nil {
+		// the leaf subject is not interpretable: aim at the attributes it was generated from
+		base = c.intended
+	}
 	if base == nil {
 		base = map[string]string{"C": "US", "ST": "WA", "O": "Notary"}
 	}
@@ -306,7 +329,17 @@ func genIdentities(rng *Rng, c *apiChain, kind string) []string {
 		m["XEXTRA"] = "1"
 		return []string{x(m)}
 	case "multi-valued-identity":
-		return []string{"x509.subject:C=US+ST=WA,O=x"}
+		// an identity that would match if '+' were read like ','
+		d := make([]attr, 0, len(keys))
+		for _, k := range keys {
+			d = append(d, attr{k, base[k]})
+		}
+		Shuffle(rng, d)
+		parts := freeRender(rng, d)
+		if len(parts) < 2 {
+			return []string{"x509.subject:C=US+ST=WA,O=x"}
+		}
+		return []string{"x509.subject:" + asciiize(parts[0]+"+"+strings.Join(parts[1:], ","))}
 	case "dup-identity":
 		return []string{x(base) + ",C=US"}
 	case "bad-then-wildcard":
@@ -352,6 +385,8 @@ func classifyVerify(err error) (string, string) {
 		return "VNoX509", "VNoX509"
 	case strings.HasPrefix(msg, "signing certificate from the digital signature does not match the X.509 trusted identities"):
 		return "VNoMatch", "VNoMatch"
+	case strings.HasPrefix(msg, "trusted identify verification by plugin "):
+		return "VPluginFail", "VPluginFail"
 	case strings.HasPrefix(msg, leafPrefix):
 		inner, uerr := strconv.Unquote(msg[len(leafPrefix):])
 		if uerr == nil {
@@ -366,7 +401,7 @@ func classifyVerify(err error) (string, string) {
 }
 
 func runAPI(a *Args, w *CaseWriter, rng *Rng, nAPI int, next func() (int64, bool)) error {
-	const per = 10
+	const per = 12 // 10 native cases + 2 cases with a verification plugin named by the signature
 	nChains := nAPI / per
 	ctx := context.Background()
 	for k := 0; k < nChains; k++ {
@@ -399,11 +434,22 @@ func runAPI(a *Args, w *CaseWriter, rng *Rng, nAPI int, next func() (int64, bool
 			if j == 2 {
 				kind = "ca-subject"
 			}
+			plugin := j >= 10
+			if plugin {
+				kind = Pick(cs, []string{"exact", "near-miss", "ca-subject", "subset", "superset", "wildcard", "unknown-prefix", "bad-dn"})
+			}
 			identities := genIdentities(cs, c, kind)
 			late := cs.Chance(1, 3)
 			logLevel := cs.Chance(1, 5)
+			capTI, capRev, pluginOK := cs.Bool(), true, cs.Bool()
+			if capTI {
+				capRev = cs.Bool()
+			}
 			if !w.Want(ids[j]) {
 				continue
+			}
+			if plugin {
+				late = false
 			}
 			cc := &c04Case{Family: "verify", Late: late, Log: logLevel, Identities: identities, Chain: c.subjects, Kind: kind + "/" + c.kind}
 			level := "strict"
@@ -423,8 +469,34 @@ func runAPI(a *Args, w *CaseWriter, rng *Rng, nAPI int, next func() (int64, bool
 				if late {
 					initial = []string{"*"}
 				}
-				doc := OCIPolicy(level, nil, []string{"ca:s"}, append([]string(nil), initial...), "")
-				v, err := verifier.NewVerifierWithOptions(c.store, verifier.VerifierOptions{OCITrustPolicy: doc})
+				var override map[trustpolicy.ValidationType]trustpolicy.ValidationAction
+				vopts := verifier.VerifierOptions{}
+				envelope := c.env
+				if plugin {
+					// revocation is skipped by the policy: the plugin is executed for the trusted-identity capability only
+					override = map[trustpolicy.ValidationType]trustpolicy.ValidationAction{trustpolicy.TypeRevocation: trustpolicy.ActionSkip}
+					var caps []pluginfw.Capability
+					if capTI {
+						caps = append(caps, pluginfw.CapabilityTrustedIdentityVerifier)
+					}
+					if capRev {
+						caps = append(caps, pluginfw.CapabilityRevocationCheckVerifier)
+					}
+					if cs.Bool() {
+						caps = append([]pluginfw.Capability{pluginfw.CapabilitySignatureGenerator}, caps...)
+					}
+					vopts.PluginManager = &MockManager{Plugins: map[string]*MockPlugin{"p": {
+						Meta: &pluginfw.GetMetadataResponse{Name: "p", Version: "1.0.0", Description: "d", URL: "u", SupportedContractVersions: []string{"1.0"}, Capabilities: caps},
+						Resp: &pluginfw.VerifySignatureResponse{VerificationResults: map[pluginfw.Capability]*pluginfw.VerificationResult{
+							pluginfw.CapabilityTrustedIdentityVerifier: {Success: pluginOK, Reason: "mock"},
+							pluginfw.CapabilityRevocationCheckVerifier: {Success: true},
+						}},
+					}}}
+					envelope = c.penv
+				}
+				doc := OCIPolicy(level, override, []string{"ca:s"}, append([]string(nil), initial...), "")
+				vopts.OCITrustPolicy = doc
+				v, err := verifier.NewVerifierWithOptions(c.store, vopts)
 				if err != nil {
 					t, l := classifyConstruct(err.Error())
 					if t == "" {
@@ -437,7 +509,7 @@ func runAPI(a *Args, w *CaseWriter, rng *Rng, nAPI int, next func() (int64, bool
 				if late {
 					doc.TrustPolicies[0].TrustedIdentities = append([]string(nil), identities...)
 				}
-				outcome, verr := v.Verify(ctx, apiDesc, c.env, notation.VerifierVerifyOptions{ArtifactReference: TestRef, SignatureMediaType: c.format})
+				outcome, verr := v.Verify(ctx, apiDesc, envelope, notation.VerifierVerifyOptions{ArtifactReference: TestRef, SignatureMediaType: c.format})
 				r, n := FindResult(outcome, trustpolicy.TypeAuthenticity)
 				if r == nil || n != 1 {
 					obsTerm, label = CApp("OVerify", "VPanic", CBool(verr != nil)), fmt.Sprintf("no single authenticity result (n=%d, err=%v)", n, verr)
@@ -459,9 +531,14 @@ func runAPI(a *Args, w *CaseWriter, rng *Rng, nAPI int, next func() (int64, bool
 			}()
 			cc.Obs = label
 			in := CApp("IVerify", CBool(late), CBool(logLevel), CStrList(identities), CStrList(c.subjects))
+			if plugin {
+				in = CApp("IPlugin", CBool(capTI), CBool(capRev), CBool(pluginOK), CBool(logLevel), CStrList(identities), CStrList(c.subjects))
+				cc.Plugin = fmt.Sprintf("capabilities: trusted-identity=%v revocation=%v; plugin trusted-identity result success=%v", capTI, capRev, pluginOK)
+				w.Count("verify_plugin", fmt.Sprintf("ti=%v,ok=%v", capTI, pluginOK))
+			}
 			term := CApp("mk_case", CN(ids[j]), in, obsTerm)
 			nontriv := c.maps[0] != nil && !contains(identities, "*") && anyIdentityParses(identities)
-			w.Add(ids[j], term, cc, fmt.Sprintf("V|%v|%v|%q|%q", late, logLevel, identities, c.subjects), nontriv)
+			w.Add(ids[j], term, cc, fmt.Sprintf("V|%v|%v|%q|%q|%v", late, logLevel, identities, c.subjects, cc.Plugin), nontriv)
 			w.Count("family", "verify")
 			w.Count("verify_identity_kind", kind)
 			w.Count("verify_leaf_kind", c.kind)
